@@ -255,6 +255,29 @@ def check_replacement(rec, rng, case, full_ob, kind):
                     rec.cls("invalid_selected_section_tolerated")
 
 
+def late_entrant_chart(rng):
+    """a song with 40-120 tempo changes in which one part plays throughout, one enters late (its first note lies dozens of tempo changes
+    in), one plays only the intro, one has a single note near the end: what the tracks share - the tempo map - is walked very
+    differently by each of them, in whatever order the sections stand"""
+    res = rng.choice([192, 480, 96])
+    n = rng.choice([40, 70, 120])
+    step = rng.choice([res // 4, res // 2, res])
+    tempos = [[k * step, gen.usable_n(rng.choice([90000, 120000, 133333, 150500, 180000]))] for k in range(n)]
+    end = n * step + 8 * res
+
+    def notes(lo, hi, gap):
+        return [{"tick": t, "lanes": {str((t // gap) % 5): rng.choice([0, 0, gap // 2])}, "open": None, "forced": False, "tap": False}
+                for t in range(lo, hi, gap)]
+
+    parts = [("GUITAR/EXPERT", notes(0, end, res // 2)), ("BASS/EXPERT", notes((n - 4) * step, end, res // 2)),
+             ("DRUMS/HARD", notes(0, 3 * step + 1, max(1, res // 4))), ("KEYS/EASY", notes((n - 1) * step + 1, (n - 1) * step + 2, 1)),
+             ("GUITAR/HARD", notes(res, end, res))]
+    rng.shuffle(parts)
+    truth = {"resolution": res, "tempos": tempos, "timesigs": [[0, 4, None]],
+             "tracks": {k: {"groups": g, "phrases": [[g[0]["tick"], res]] if g else [], "tevents": []} for k, g in parts}}
+    return gen.render_truth(truth)
+
+
 def run_shard(shard, rec, tier, seed):
     harness.setup()
     for i in range(shard["count"]):
@@ -262,6 +285,9 @@ def run_shard(shard, rec, tier, seed):
         nt = rng.choice([0, 1, 2, 3, 6, 12, 40]) if i % 8 else 40
         case = gen.gen_chart(rng, "hostile" if i % 3 == 0 else "realistic", n_tracks=nt, n_groups=rng.choice([0, 3, 10]),
                              n_globals=rng.choice([0, 3]), n_tempos=rng.choice([1, 3]))
+        if i % 7 == 3:
+            case = late_entrant_chart(rng)
+            rec.cls("busy_tempo_map_with_a_part_that_enters_late")
         full = harness.parse(case["text"])
         if not full.ok:
             rec.diag(f"baseline rejected: {harness.exc_str(full.exc)}")
